@@ -8,6 +8,7 @@
 package c20
 
 import (
+	"os"
 	"bytes"
 	"fmt"
 	"net/http"
@@ -26,7 +27,15 @@ import (
 const localHost = "localhost:8088"
 
 func TestMain(m *testing.M) {
+	// (webfix silences storrent by pointing os.Stderr at /dev/null; the native
+	// fuzzer's coordinator reports its progress on os.Stderr)
+	stderr := os.Stderr
 	webfix.Init()
+	for _, a := range os.Args {
+		if strings.HasPrefix(a, "-test.fuzz=") || a == "-test.fuzz" {
+			os.Stderr = stderr
+		}
+	}
 	stats.Main(m)
 }
 
